@@ -247,6 +247,7 @@ struct Rules<'a> {
     r11: bool,
     r12: bool,
     r14: bool,
+    r15: bool,
     hoists: &'a [Value],
     inlines: &'a [Value],
     for_iters: &'a [Value],
@@ -412,6 +413,18 @@ impl<'a> VisitMut for Rules<'a> {
                     self.log.push(json!({"rule":"R12","file":self.file,"line":line,
                         "what":format!("in {}: match with {} guarded arm(s) written as a sequence of guard-free matches under a `done` flag; the scrutinee `{}` is evaluated once per tried arm (requires a side-effect-free scrutinee)", self.cur_fn, n_guard, norm(&scrut.to_token_stream()))}));
                     *e = parse_quote!({ let mut __vx_done = false; #(#steps)* });
+                }
+            }
+        }
+        // R15: `format!(..)` ↦ `__vx_format()`: an opaque String (message texts are not part of any claim; formatting the
+        // Display arguments has no side effect on the program state)
+        if self.r15 {
+            if let Expr::Macro(m) = e {
+                if path_last_ident(&m.mac.path) == "format" {
+                    self.log.push(json!({"rule":"R15","file":self.file,"line":0,
+                        "what":format!("in {}: `format!(..)` replaced by the opaque string __vx_format() (message text is not part of any claim)", self.cur_fn)}));
+                    *e = parse_quote!(__vx_format());
+                    return;
                 }
             }
         }
@@ -915,7 +928,7 @@ fn main() {
                 // 2. rules
                 AttrStrip { derive_keep: &derive_keep, log: &mut log, file, apply_r2: rules.contains("R2") }.visit_item_mut(&mut item);
                 let mut r = Rules {
-                    r1: rules.contains("R1"), r3: rules.contains("R3"), r4: rules.contains("R4"), r9: rules.contains("R9"), r10: rules.contains("R10"), r11: rules.contains("R11"), r12: rules.contains("R12"), r14: rules.contains("R14"),
+                    r1: rules.contains("R1"), r3: rules.contains("R3"), r4: rules.contains("R4"), r9: rules.contains("R9"), r10: rules.contains("R10"), r11: rules.contains("R11"), r12: rules.contains("R12"), r14: rules.contains("R14"), r15: rules.contains("R15"),
                     hoists, inlines, for_iters, log: &mut log, file, cur_fn: String::new(), hoist_hits: vec![0; hoists.len()],
                 };
                 r.visit_item_mut(&mut item);
